@@ -162,6 +162,8 @@ def replay_s256_toy(ctx, tab):
 
 # ------------------------------------------------------------------ (B) real curve
 def le(n):
+    if isinstance(n, int) and n < 0:
+        return [255] * 40       # not a natural number at all: a value no specification term can equal (the case is then decided, not dropped)
     return B(n.to_bytes((n.bit_length() + 7) // 8, "little")) if n else []
 
 
